@@ -13,7 +13,7 @@ func init() { register("C21", "other", checkC21) }
 const pkgOperator = rootModPath + "/pkg/operator"
 
 func checkC21(c *Ctx, r *Report) {
-	r.Explanation = "Decides three structural necessary conditions of 'acknowledged topic creations and partition growth are never lost': (S1) every call from EtcdStore into the embedded in-memory store that changes topics (CreateTopic, CreatePartitions, DeleteTopic, Update) runs with persistMu held, and after a successful mutation every success return has passed persistSnapshotLocked — so a concurrent snapshot refresh cannot interleave between mutate and persist (exposed and repaired: a57c5b1); (S2) every etcd write of the metadata snapshot key is a compare-and-swap on the revision that was read (the operator's is; the broker's persistSnapshotLocked is a plain Put — KNOWN-FINDING K6); (S3) the operator's mergeSnapshots compares the partition counts before choosing the list for a topic present on both sides (exposed and repaired: 328cb4a). It does not decide convergence after quiescence."
+	r.Explanation = "Decides three structural necessary conditions of 'acknowledged topic creations and partition growth are never lost': (S1) every call from EtcdStore into the embedded in-memory store that changes topics (CreateTopic, CreatePartitions, DeleteTopic, Update) runs with persistMu held, and after a successful mutation every success return has passed persistSnapshotLocked — so a concurrent snapshot refresh cannot interleave between mutate and persist (exposed and repaired: a57c5b1); (S2) every etcd write of the metadata snapshot key is a compare-and-swap on the revision that was read (the operator's is; the broker's persistSnapshotLocked is a plain Put — KNOWN-FINDING K6); (S3) the operator's mergeSnapshots compares the partition counts before choosing the list for a topic present on both sides (exposed and repaired: 40b6dfe). It does not decide convergence after quiescence."
 	r.NotCovered = "convergence of all brokers after quiescence; explicit deletions racing creations"
 	m, err := c.Mod("root")
 	if err != nil {
@@ -22,7 +22,7 @@ func checkC21(c *Ctx, r *Report) {
 	}
 	r.rule("C21.S1", "EtcdStore → InMemoryStore topic mutations happen under persistMu and are persisted (persistSnapshotLocked) before any success return", 5)
 	r.rule("C21.S2", "every etcd write of the snapshot key is a Txn conditioned on the revision read", 2)
-	r.rule("C21.S3", "mergeSnapshots compares len(Partitions) of both sides for a topic present in both", 1)
+	r.rule("C21.S3", "mergeSnapshots compares len(Partitions) of both sides for a topic present in both and only ever installs the longer list", 2)
 
 	mutators := map[string]bool{"CreateTopic": true, "CreatePartitions": true, "DeleteTopic": true}
 	targets := []string{"(*" + pkgMetadata + ".InMemoryStore).CreateTopic", "(*" + pkgMetadata + ".InMemoryStore).CreatePartitions",
@@ -123,7 +123,48 @@ func checkC21(c *Ctx, r *Report) {
 				}
 			}
 		}
-		if cmp {
+		// the list written for a topic present on both sides is the longer one: every store into a
+		// Partitions field is guarded by len(<stored list>) > len(<other list>) (either spelling)
+		lenArg := func(v ssa.Value) (ssa.Value, bool) {
+			lc, ok := strip(v).(*ssa.Call)
+			if !ok || calleeName(&lc.Call) != "builtin.len" {
+				return nil, false
+			}
+			return lc.Call.Args[0], true
+		}
+		nStores := 0
+		for _, b := range ms.Blocks {
+			for _, in := range b.Instrs {
+				st, ok := in.(*ssa.Store)
+				if !ok {
+					continue
+				}
+				fa, ok := st.Addr.(*ssa.FieldAddr)
+				if !ok {
+					continue
+				}
+				if _, f, _, ok := fieldAddrInfo(fa); !ok || f != "Partitions" {
+					continue
+				}
+				nStores++
+				want := describe(st.Val)
+				g := Guard{cl(atomFn("len(stored) > len(other)", func(l Lit) bool {
+					gt, lt := l.X, l.Y
+					switch l.Op {
+					case token.GTR:
+					case token.LSS:
+						gt, lt = l.Y, l.X
+					default:
+						return false
+					}
+					a, ok1 := lenArg(gt)
+					b2, ok2 := lenArg(lt)
+					return ok1 && ok2 && isLenParts(gt) && isLenParts(lt) && describe(a) == want && describe(b2) != want
+				}))}
+				guardVerdict(m, r, "C21.S3", "mergeSnapshots replaces a partition list only by a longer one", ms, st, g)
+			}
+		}
+		if cmp && nStores > 0 {
 			r.ok("C21.S3", "mergeSnapshots keeps the longer partition list", m.Pos(ms.Pos()), "partition counts of both sides are compared")
 		} else {
 			r.viol("C21.S3", "mergeSnapshots keeps the longer partition list", m.Pos(ms.Pos()), "a topic present on both sides is taken from the resource definition without comparing partition counts: a grown topic shrinks on the next reconcile")
